@@ -33,9 +33,12 @@ func init() {
 		if len(args) != 1 {
 			return nil, ExceptionNewf(TypeError, "append() takes exactly one argument (%d given)", len(args))
 		}
-		if oList, ok := args[0].(*List); ok {
-			listSelf.Items = append(listSelf.Items, oList.Items...)
+		// Any iterable will do (read it first - it may be the list itself)
+		items, err := SequenceTuple(args[0])
+		if err != nil {
+			return nil, err
 		}
+		listSelf.Extend(items)
 		return NoneType{}, nil
 	}, 0, "extend([item])")
 
@@ -305,11 +308,13 @@ func (a *List) M__radd__(other Object) (Object, error) {
 }
 
 func (a *List) M__iadd__(other Object) (Object, error) {
-	if b, ok := other.(*List); ok {
-		a.Extend(b.Items)
-		return a, nil
+	// += extends in place from any iterable (read it first - it may be a)
+	items, err := SequenceTuple(other)
+	if err != nil {
+		return nil, err
 	}
-	return NotImplemented, nil
+	a.Extend(items)
+	return a, nil
 }
 
 func (l *List) M__mul__(other Object) (Object, error) {
